@@ -300,7 +300,7 @@ def check(repo, rep, tier):
             continue
         # header reads happen before the child loop
         loop_i = [i for i, e in enumerate(st.events) if e[0] in ('loop-enter', 'loop-skip')]
-        hdr = [e for e in st.events[:loop_i[0]] if e[0] == 'call' and e[1][1] == A(N('self'), 'next')] if loop_i else []
+        hdr = [e for e in st.events[:loop_i[0]] if e[0] == 'call' and (e[1][1] == A(N('self'), 'next') or (e[1][1][0] == 'attr' and e[1][1][1] == N('self') and e[1][1][2] in rdp.movers))] if loop_i else []
         rep.check(len(hdr) == 4 and codec.field_ids(catp[0]) == [1], 'R8.2', wt_, 'parse_tree:header',
                   'parse_tree reads the 4 header fields (marker, category, head, arity) and parses the category from field 1',
                   'parse_tree reads %d header fields, category from %s' % (len(hdr), codec.field_ids(catp[0])))
@@ -340,8 +340,8 @@ def check(repo, rep, tier):
         appended = [e for e in inside if e[0] == 'call' and e[1][1][0] == 'attr' and e[1][1][2] == 'append']
         child = appended if len(appended) == 1 else [e for e in inside if e[0] == 'call' and e[1][1][0] == 'attr' and e[1][1][1] == N('self')
                                                       and e[1][1][2] not in ('next', 'peek', 'check')]
-        nexts_in = [e for e in inside if e[0] == 'call' and e[1][1] == A(N('self'), 'next')]
-        nexts_after = [e for e in st.events[exit_[0]:] if e[0] == 'call' and e[1][1] == A(N('self'), 'next')]
+        nexts_in = [e for e in inside if e[0] == 'call' and (e[1][1] == A(N('self'), 'next') or (e[1][1][0] == 'attr' and e[1][1][1] == N('self') and e[1][1][2] in rdp.movers))]
+        nexts_after = [e for e in st.events[exit_[0]:] if e[0] == 'call' and (e[1][1] == A(N('self'), 'next') or (e[1][1][0] == 'attr' and e[1][1][1] == N('self') and e[1][1][2] in rdp.movers))]
         if test_ok and len(child) == 1 and not nexts_in and len(nexts_after) == 1:
             loop_ok = True
     rep.check(loop_ok, 'R8.2', wt_, 'parse_tree:child-loop', 'children are read with next_node() until the closing bracket, which is then consumed by one cursor read',
